@@ -84,4 +84,18 @@ TEXT.update({
          "note": TB + " Known finding (open): project second visit."},
 })
 
+TSURF = ("Trusted: TLC, Json/IOUtils, the elaboration rules Kanren.Elab and the reference semantics, tools/surface.py (AST -> surface "
+         "text printer), the Rust projectors. Bounded: program sizes of the generators. Programs the macro rejects are not part of the property.")
+TEXT.update({
+ "C13": {"ref": "DESIGN 5 C13", "technique": "TLA+ elaboration of match/matche/matcha/matchu into the core operators (Kanren.Elab); generated surface programs compiled against the working tree, answers validated by TLC against the elaborated reference",
+         "level": "Kanren.Elab defines the documented meaning of the pattern-matching operators (one disjunct per arm and alternative, pattern names local to arm and alternative, repeated name = one variable, wildcards, matched term evaluated outside the pattern scope; matcha/matchu = committed choice over the same clauses). Random match expressions - including pattern variables that carry the name of an outer variable - are printed as Rust source, compiled against the current tree with the real macros, executed, and TLC compares the recorded answers with the reference semantics of the elaboration.",
+         "note": TSURF},
+ "C14": {"ref": "DESIGN 5 C14", "technique": "same programs through the macro (compiled surface source) and through the constructor API; TLC validates both against the reference semantics of the AST and against each other",
+         "level": "Random programs over the clause grammar are run twice - printed as surface syntax and compiled with the real macros, and built through the public constructors - and TLC compares both answer streams with the reference semantics (per query variable, in declaration order) and with each other; lterm!(t) is compared with the written term.",
+         "note": TSURF},
+ "C15": {"ref": "DESIGN 5 C15", "technique": "alpha-twin programs (shadowing names vs globally unique names) compiled and run; TLC compares twins with each other and with a reference that allocates new variables at every binder and unfolding",
+         "level": "Programs with same-named variables in nested/sibling scopes, pattern variables and recursive relations whose bodies bind fresh variables named like the caller's are compiled next to their alpha-renamed twins; TLC checks that both have the answers of the reference semantics, in which every binder and every unfolding of a relation draws new variables from the reaching state's counter.",
+         "note": TSURF},
+})
+
 NOT_APPLICABLE = {}
